@@ -388,10 +388,6 @@ def eval_foreach(case: dict[str, Any], cin: Any, cout: Any, data: Any, log: list
                     bad('replaced_flag_differs_from_filter', pass_index=k, method='custom:' + mode, flag=decisions[i], filter=want, location=loc)
                 cnt['filter_decisions_checked'] += 1
             rf_log = [r for j, r in enumerate(mine) if not used[j]]
-            if mode == 'alternate' and blocks:
-                nacc = sum(1 for d in decisions if d)
-                if nacc != (len(blocks) + 1) // 2:
-                    bad('alternate_filter_accept_count', pass_index=k, accepted=nacc, blocks=len(blocks))
         # ---- model the write-back
         nxt = Circuit(n, cur.radixes)
         idx_of = {id(op): i for i, (_, op) in enumerate(blocks)}
